@@ -327,8 +327,10 @@ func (m *Manager) newStream(ctx context.Context, sid uint64, kind, rpc string) (
 	case <-m.sigs.term.Signal():
 		// the stream is already recorded as the latest stream, so the reader
 		// may deliver packets to it, but manageStreams will never see it:
-		// terminate it here so that nothing can park on it.
-		stream.Cancel(m.sigs.term.Err())
+		// close its receive side here so that nothing can park on it. (it must
+		// not be terminated: a finished token for a stream manageStreams does
+		// not know would be taken for the token of the stream it is managing.)
+		stream.CloseRecv()
 		return nil, m.sigs.term.Err()
 	}
 }
